@@ -18,8 +18,8 @@ LENGTHS = [0, 1, 9998, 9999, 10000, 10001]
 STR_DOMAIN = 400000
 
 BOUNDS = {
-    'quick': dict(DEPTH=2),
-    'thorough': dict(DEPTH=3),
+    'quick': dict(DEPTH=2, DEEP_LENGTHS=[0, 9999, 10000, 10001], DEEP_OPS='fixed operator/compound/index forms only'),
+    'thorough': dict(DEPTH=3, DEEP_LENGTHS=LENGTHS, DEEP_OPS='all'),
 }
 
 FIXED_OPS = [
@@ -286,10 +286,11 @@ def main(tier, seed, t0):
     while frontier and depth < b['DEPTH']:
         depth += 1
         tasks = []
-        for n in LENGTHS:
+        for n in (LENGTHS if depth == 1 else b['DEEP_LENGTHS']):
             hs = [h for m, h in frontier if m == n]
             k = max(1, len(hs) // 24 + 1)
-            tasks += [(n, hs[i:i + k], ops) for i in range(0, len(hs), k)]
+            use = ops if (depth == 1 or b['DEEP_OPS'] == 'all') else FIXED_OPS
+            tasks += [(n, hs[i:i + k], use) for i in range(0, len(hs), k)]
         tasks = runner.rotate(tasks, seed)
         r = runner.run_tasks(work, tasks, selftest=(depth == 1))
         new = []
@@ -315,7 +316,8 @@ def main(tier, seed, t0):
         'evaluations': n_.get('evals', 0),
         'distinct_nontrivial': len(total.outcomes),
         'rule': 'BFS to depth %d over %d growth-relevant statements (%d fixed operator/compound/index forms + builtin x argument '
-                'template pairs discovered by a dry run over all of FUNCTIONS) from host list/dict/string of lengths %s; states '
+                'template pairs discovered by a dry run over all of FUNCTIONS) from host list/dict/string of lengths %s (beyond depth 1: see '
+                'bounds); states '
                 'deduplicated on the (type, length) tree reachable from names. distinct_nontrivial = distinct such states.'
                 % (b['DEPTH'], len(ops), len(FIXED_OPS), LENGTHS),
         'exhaustive': True,
